@@ -355,3 +355,22 @@ Proof.
   unfold fail_tasks. intro H. apply in_map_iff in H. destruct H as [t [Et Ht]].
   exists t. split; [exact Ht|]. destruct (mem_tid (t_id t) ids); [right|left]; symmetry; exact Et.
 Qed.
+
+(* ---------------- recon_tasks ---------------- *)
+(* the fact read off the source (gen/Gen_UtsWrites.v): updateTaskStatus writes executorId only when
+   the update carries one *)
+Lemma uts_executor_write_guarded : recon_blanks = false.
+Proof. vm_compute. reflexivity. Qed.
+
+Lemma recon_task_id t : recon_task t = t.
+Proof.
+  unfold recon_task. rewrite uts_executor_write_guarded. cbn [negb].
+  destruct (t_active t) eqn:Ea, (t_idok t) eqn:Ek; cbn [andb]; try reflexivity.
+  destruct t; cbn in *; subst; reflexivity.
+Qed.
+
+Lemma recon_tasks_id r : recon_tasks r = r.
+Proof.
+  unfold recon_tasks. induction r as [|a r IH]; cbn [map]; [reflexivity|].
+  rewrite recon_task_id, IH. reflexivity.
+Qed.
